@@ -37,7 +37,10 @@ def docs_grammar(rnd, n):
             return '<%s%s%s>%s' % (nm, attrs, tail, inner)           # unclosed
         # (a differently-cased end tag does not close the element: ParseError or tag soup)
         close = nm if rnd.randrange(6) else nm.swapcase()
-        return '<%s%s%s>%s</%s%s>' % (nm, attrs, tail, inner, close, rnd.choice(['', ' ', '\n']))
+        # (text after the name of an end tag is not markup the dissection keeps: such a document is
+        # rejected, never rendered without it)
+        return '<%s%s%s>%s</%s%s>' % (nm, attrs, tail, inner, close,
+                                      rnd.choice(['', '', ' ', '\n', ' junk', ' k="v"', '\tnowrap ']))
     def part(depth):
         k = rnd.randrange(8)
         if k == 0:
